@@ -14,7 +14,7 @@ From Coq Require Import List NArith Bool Arith.
 From Astisub Require Import Kit.Base Kit.Scan Kit.IOW Model.Srt Model.Vtt Proofs.ScanProofs Proofs.SrtIOProofs Proofs.VttIOProofs.
 From Astisub Require Import Model.Ssa Proofs.SsaIOProofs.
 From Astisub Require Import Model.Stl Model.StlIO Proofs.StlIOProofs.
-From Astisub Require Import Model.Ttml Proofs.TtmlIO.
+From Astisub Require Import Model.Ttml Proofs.TtmlIO Model.TtmlGo Proofs.TtmlGoProofs.
 Import ListNotations.
 
 Theorem C18_read_srt_fault : forall ls, exists k, read_srt_lines ls true = Err k.
@@ -72,11 +72,11 @@ Proof. exact write_ssa_complete. Qed.
    (not modelled): bufio.Writer and the encoder hand over every byte in order and report the first error; on the
    reader side xml.Decoder's own read loop returns the stream's error (exercised by the harness at every offset). *)
 Theorem C18_write_ttml_fault : forall (cut : list N -> list (list N)), (forall s, concat (cut s) = s) ->
-  forall ind d doc k, write_ttml_bytes ind d = Ok doc -> (k < length doc)%nat -> write_ttml_to cut ind d (fail_at k) = Err EIO.
-Proof. exact write_ttml_fault. Qed.
+  forall ind d doc k, write_ttml_bytes_go ind d = Ok doc -> (k < length doc)%nat -> write_ttml_to_go cut ind d (fail_at k) = Err EIO.
+Proof. exact write_ttml_go_fault. Qed.
 Theorem C18_write_ttml_complete : forall (cut : list N -> list (list N)), (forall s, concat (cut s) = s) ->
-  forall ind d doc, write_ttml_bytes ind d = Ok doc -> write_ttml_to cut ind d ok_dest = Ok (length doc).
-Proof. exact write_ttml_complete. Qed.
+  forall ind d doc, write_ttml_bytes_go ind d = Ok doc -> write_ttml_to_go cut ind d ok_dest = Ok (length doc).
+Proof. exact write_ttml_go_complete. Qed.
 (* a stream failing after k bytes under any delivery schedule: the readers return an error, not a shorter cue list *)
 Theorem C18_read_fault_at_offset : forall data k counts,
   (exists e, read_srt_lines (fst (scan_fail data k counts)) (snd (scan_fail data k counts)) = Err e) /\
@@ -204,3 +204,59 @@ Theorem C18_read_stl_partial_block_genuine : forall ign data j r,
 Proof. exact read_stl_partial_block_genuine. Qed.
 Print Assumptions C18_read_stl_fault_genuine.
 Print Assumptions C18_read_stl_partial_block_genuine.
+
+(* Teletext in transport streams (second audit, N1): the wrapper teletextFullReader (Model/TtxFull.v, see the block at the
+   end of C17.v for what is and is not modelled).  A stream failing at offset k <= length data, under EVERY schedule and
+   whether the failure comes with the last bytes or alone: the demuxer's Reads return the one-shot sequence of the first k
+   bytes ending in the failure; the Read that would cross offset k returns the bytes up to k together with the failure,
+   the Reads before it are filled and report nothing, nothing beyond offset k is ever delivered and the failure is never
+   turned into end-of-file or nil (in particular not by the ErrUnexpectedEOF -> nil step of the wrapper); a failure the
+   demuxer does not reach changes nothing.  What astits does with the error of its Read is its contract (it returns it:
+   harness suite fault.read.teletext on the implementation). *)
+From Astisub Require Import Model.TtxFull Proofs.TtxFullProofs.
+Theorem C18_ttx_fault_reads : forall data k counts w ns, (k <= length data)%nat ->
+  tf_reads (tf_of data (SFail k) counts w) ns = Some (tf_oneshot (firstn k data) TfFault ns).
+Proof. exact ttx_fault_reads. Qed.
+Print Assumptions C18_ttx_fault_reads.
+Theorem C18_ttx_fault_propagates : forall data k counts w ns, (k <= length data)%nat -> (k < list_sum ns)%nat ->
+  exists pre b post, tf_reads (tf_of data (SFail k) counts w) ns = Some (pre ++ (b, Some TfFault) :: post) /\
+                     Forall (fun x => snd x = None) pre /\ concat (map fst pre) ++ b = firstn k data /\ Forall (fun x => fst x = []) post.
+Proof. exact ttx_fault_propagates. Qed.
+Print Assumptions C18_ttx_fault_propagates.
+Theorem C18_ttx_fault_unreached : forall data k counts w ns, (k <= length data)%nat -> (list_sum ns <= k)%nat ->
+  tf_reads (tf_of data (SFail k) counts w) ns = tf_reads (tf_of data SEof counts w) ns.
+Proof. exact ttx_fault_unreached. Qed.
+Print Assumptions C18_ttx_fault_unreached.
+(* non-vacuity: failure at offset 5 delivered with the last bytes; the second Read of 3 crosses it *)
+Example C18_ttx_fault_example :
+  tf_reads (tf_of [1;2;3;4;5;6;7]%N (SFail 5) [1;0;2]%nat true) [3;3;3]%nat =
+  Some [([1;2;3]%N, None); ([4;5]%N, Some TfFault); ([], Some TfFault)].
+Proof. reflexivity. Qed.
+Print Assumptions C18_ttx_fault_example.
+(* ---- EBU STL reader, the failing Read delivers bytes together with its error (audit N9a) ----
+   io.Reader allows Read to return (n, err) with n > 0, and does not oblige a stream to repeat an error: after the failing
+   Read it may report end-of-file or go on.  io.ReadFull DROPS an error that arrives with the last requested bytes, so a
+   stream failing exactly at the end of a block (offsets 1024 + 128 i) and reporting end-of-file afterwards made
+   ReadFromSTL return the cues read so far with a nil error (3 cues, failure after 1152 bytes: 1 cue, no error) - a silent
+   truncation, inside this property's quantifier ("fails with an error other than end-of-file at any byte offset").
+   Repaired in the repository (readNBytes keeps the error; seeded/C18-stl-read-error-dropped-with-last-bytes-of-block).
+   C18_read_stl_fault above models "the stream delivers a prefix, then a Read fails without data"; the reader never
+   calls Read again after a failing one, so the statement does not depend on the stream being sticky.
+   read_stl_fail_at_wd (Model/StlIO.v) is the other way of failing: the Read that delivers the last byte of the prefix
+   returns the error with it; a block completed by that byte is not looked at.  Both are errors, and genuine ones (not the
+   out-of-fuel value of the loop).  C18_read_stl_fault_example: the audit's file, and the same prefix as a stream that
+   simply ends (a one-cue file).  The harness's failing reader (stl_io.go) fails with and without data and then is
+   sticky, reports end-of-file, or resumes. *)
+From Astisub Require Import Model.Stl Model.StlIO Proofs.StlIOWithData.
+Theorem C18_read_stl_fault_with_data : forall ign data k counts,
+  exists e, read_stl_fail_at_wd ign data k counts = Err e /\ e <> EOther.
+Proof. intros ign data k counts. exact (read_stl_fail_wd_err_genuine ign (firstn k data) counts). Qed.
+Example C18_read_stl_fault_example :
+  length wd_ex_file = 1408%nat /\
+  read_stl_fail_at_wd false wd_ex_file 1152 nil = Err EIO /\ read_stl_fail_at false wd_ex_file 1152 nil = Err EIO /\
+  read_stl_fail_at_wd false wd_ex_file 1024 nil = Err EIO /\
+  read_stl_fail_at_wd false wd_ex_file 1408 (1024 :: 128 :: 128 :: 128 :: nil)%nat = Err EIO /\
+  match read_stl false (firstn 1152 wd_ex_file) with Ok d => length (rd_items d) = 1%nat | _ => False end.
+Proof. exact wd_ex. Qed.
+Print Assumptions C18_read_stl_fault_with_data.
+Print Assumptions C18_read_stl_fault_example.
